@@ -36,6 +36,8 @@ TABLE = {
     "reverts/r15_9d82c8e.diff": ["C03"],
     "reverts/r16_0551186.diff": ["C20"],
     "reverts/r17_duration_observer_midrun.diff": ["C04"],
+    "reverts/r18_notify_skip.diff": ["C10"],
+    "c10_notify_snapshot_no_recheck.diff": ["C10"],
 }
 
 
